@@ -893,6 +893,9 @@ func (s *sim) start(method string, key string, p *simPub, withGcp bool, hasDl bo
 	if !s.completed(h, st, "pick "+method) {
 		return
 	}
+	if useOverride {
+		s.hit("C05.malformed-handled")
+	}
 	var ch *simChan
 	if err == nil {
 		ch = s.chanOf(pr.SubConn)
@@ -951,7 +954,6 @@ func (s *sim) start(method string, key string, p *simPub, withGcp bool, hasDl bo
 	}
 	if useOverride {
 		// malformed request: an error or an unkeyed placement; only generic rules
-		s.hit("C05.malformed-handled")
 		s.afterOp()
 		return
 	}
@@ -1524,7 +1526,7 @@ func simBias(prop string, rng *vRand) map[string]bool {
 		pick("stale", 50)
 		pick("refresh", 40)
 	case "C07":
-		pick("refresh", 100)
+		pick("refresh", 88)
 		pick("factoryfail", 30)
 		pick("keys", 40)
 		pick("states", 30)
